@@ -146,12 +146,94 @@ func runC20(t gen.Tier, r *gen.Rng, rep *Reporter) {
 		checkPad(rep, kind, c, v, r.Intn(l+12), r.Bytes(r.Intn(10)))
 		checkUnpad(rep, kind, c, v)
 	}
+	vals := [][]byte{{}, {'a'}, {'a', 'b'}, {'x'}, {'0', '1'}, {' '}}
+	for i := 0; i < t.N(600, 20000); i++ {
+		steps := make([]padStep, 2+r.Intn(4))
+		for k := range steps {
+			v := vals[r.Intn(len(vals))]
+			steps[k] = padStep{len(v) + r.Intn(7), v, []byte{0xEE, 0xEE}}
+		}
+		checkPadSeq(rep, gen.Pick(r, []string{"L", "R"}), gen.Pick(r, []byte{'0', ' ', 0, 'a'}), steps)
+	}
 	rep.Sample("D L 30 pad 5 3132 eeee => pad/unpad laws + caller backing array compared before/after")
+}
+
+type padStep struct {
+	n     int
+	v, sp []byte
+}
+
+// checkPadSeq: the Pad law for a SEQUENCE of calls on one padder object, every result looked at
+// only after the last call (a padder that caches a pad run, or returns slices that share memory,
+// satisfies the law call by call on a new object and breaks it here).
+func checkPadSeq(rep *Reporter, kind string, c byte, steps []padStep) {
+	subs := make([]string, len(steps))
+	for i, st := range steps {
+		subs[i] = fmt.Sprintf("D,%s,%02x,pad,%d,%s,%s", kind, c, st.n, gen.H(st.v), gen.H(st.sp))
+	}
+	line := "Q " + strings.Join(subs, "|")
+	safely(rep, line, func() {
+		p, _ := impl.Padder(kind, fmt.Sprintf("%02x", c))
+		if p == nil {
+			return
+		}
+		outs := make([][]byte, len(steps))
+		backs := make([][]byte, len(steps))
+		for i, st := range steps {
+			backing := make([]byte, 0, len(st.v)+len(st.sp))
+			backing = append(append(backing, st.v...), st.sp...)
+			backs[i] = backing
+			outs[i] = p.Pad(backing[:len(st.v)], st.n)
+		}
+		rep.Case(line)
+		for i, st := range steps {
+			want := append([]byte{}, st.v...)
+			if len(st.v) < st.n {
+				fill := bytes.Repeat([]byte{c}, st.n-len(st.v))
+				if kind == "L" {
+					want = append(fill, st.v...)
+				} else {
+					want = append(want, fill...)
+				}
+			}
+			if !bytes.Equal(outs[i], want) {
+				rep.Viol("Pad result is not exactly target-length pad characters plus value (sequence of calls on one padder, results read after the last call)", line,
+					fmt.Sprintf("call %d: got %x want %x", i+1, outs[i], want))
+				return
+			}
+			if !bytes.Equal(backs[i][:len(st.v)+len(st.sp)], append(append([]byte{}, st.v...), st.sp...)) {
+				rep.Viol("Pad wrote to the caller's slice or its spare capacity", line, fmt.Sprintf("call %d", i+1))
+				return
+			}
+		}
+	})
 }
 
 func linesC20(lines []string, rep *Reporter) {
 	for _, l := range lines {
 		t := strings.Split(l, " ")
+		if len(t) == 2 && t[0] == "Q" {
+			var steps []padStep
+			kind, cs := "", ""
+			ok := true
+			for _, sub := range strings.Split(t[1], "|") {
+				s := strings.Split(sub, ",")
+				if len(s) != 7 || s[0] != "D" || s[3] != "pad" || (kind != "" && (s[1] != kind || s[2] != cs)) {
+					ok = false
+					break
+				}
+				kind, cs = s[1], s[2]
+				n, _ := strconv.Atoi(s[4])
+				v, _ := impl.UnHex(s[5])
+				sp, _ := impl.UnHex(s[6])
+				steps = append(steps, padStep{n, v, sp})
+			}
+			cb, _ := impl.UnHex(cs)
+			if ok && len(cb) == 1 && (kind == "L" || kind == "R") {
+				checkPadSeq(rep, kind, cb[0], steps)
+			}
+			continue
+		}
 		if len(t) < 5 || t[0] != "D" {
 			continue
 		}
